@@ -79,6 +79,8 @@ struct VThread {
   void*     block_on;
   bool      yielded;
   bool      wait_timed_out;
+  int       cur_op;             // index of the operation of the thread's program that is being executed
+  uint64_t  op_draws;           // scheduling decisions drawn inside that operation
   int       passthrough;   // nesting depth
   int64_t   priority;
   uint64_t  steps, call_steps;
@@ -96,6 +98,13 @@ static int       g_cur = -1;          // baton holder
 static bool      g_active = false;
 static __thread VThread* tl_cur = nullptr;
 static Rng       g_srng;              // scheduling decisions
+// Scheduling decisions: one sequential stream (stable_sched = 0) or, by default for generated plans, a value derived from
+// (seed, logical thread, operation index, n-th decision inside that operation). The second form keeps the decisions inside
+// an operation unchanged when unrelated operations are deleted from the plan, which is what lets the minimiser shrink
+// multi-threaded plans; both are pure functions of the plan.
+struct VThread;
+static uint64_t sched_draw(VThread* t);
+static inline bool sched_chance(VThread* t, double p) { return (double)(sched_draw(t) >> 11) * (1.0 / 9007199254740992.0) < p; }
 static uint64_t  g_clock_ns = 0;
 static std::vector<uint64_t> g_pct_change;   // step numbers (sorted)
 static size_t    g_pct_next = 0;
@@ -283,7 +292,7 @@ static VThread* pick_next(VThread* self /* may be excluded */, bool exclude_self
   if (g_cfg.strategy == ST_ROUNDROBIN) {
     for (int k = 1; k <= g_nvt; k++) { int j = (g_rr_next + k) % g_nvt; for (int i = 0; i < cn; i++) if (c[i]->idx == j) { g_rr_next = j; return c[i]; } }
   }
-  return c[g_srng.below((uint64_t)cn)];
+  return c[sched_draw(tl_cur) % (uint64_t)cn];
 }
 
 static void hand_over(VThread* from, VThread* to) {
@@ -357,7 +366,7 @@ static void maybe_switch(VThread* t, const mi_sim_site_t* site, bool harness) {
       if (g_cfg.strategy == ST_ROUNDROBIN && harness) p = 1.0;
       if (p <= 0.0) return;
       if (g_nvt < 2) return;
-      if (!g_srng.chance(p)) return;
+      if (!sched_chance(t, p)) return;
       VThread* n = pick_next(t, true);
       if (n) hand_over(t, n);
       return;
@@ -407,6 +416,12 @@ void sched_os_point(int kind) {
 }
 
 void sched_call_begin() { if (tl_cur) tl_cur->call_steps = 0; }
+void sched_set_op(int op_index) { if (tl_cur) { tl_cur->cur_op = op_index; tl_cur->op_draws = 0; } }
+static uint64_t sched_draw(VThread* t) {
+  if (!g_cfg.stable_sched || t == nullptr) return g_srng.next();
+  uint64_t k = mix64(g_cfg.sched_seed ? g_cfg.sched_seed : mix64(g_cfg.seed, 0x5C4ED), ((uint64_t)(uint32_t)t->logical << 32) ^ (uint64_t)(uint32_t)t->cur_op);
+  return mix64(k, t->op_draws++);
+}
 void sched_set_passthrough(bool on) { if (tl_cur) { if (on) tl_cur->passthrough++; else if (tl_cur->passthrough > 0) tl_cur->passthrough--; } }
 int  sched_self() { return tl_cur ? tl_cur->idx : -1; }
 void sched_set_logical(int id) { if (tl_cur) tl_cur->logical = id; }
@@ -427,7 +442,7 @@ extern "C" bool mi_sim_cas_spurious(mi_sim_site_t* site) {
   if (!g_active || t == nullptr || t->passthrough || g_cfg.spurious_p <= 0.0) return false;
   if (site->flags & SF_NOPREEMPT) return false;
   if (t->spurious_site == site && t->spurious_run >= 3) { t->spurious_run = 0; return false; }
-  if (!g_srng.chance(g_cfg.spurious_p)) { if (t->spurious_site == site) t->spurious_run = 0; return false; }
+  if (!sched_chance(t, g_cfg.spurious_p)) { if (t->spurious_site == site) t->spurious_run = 0; return false; }
   if (t->spurious_site != site) { t->spurious_site = site; t->spurious_run = 0; }
   t->spurious_run++;
   g_stats.spurious++; probe(PR_spurious_cas_injected);
